@@ -84,7 +84,7 @@ def handler_table(cls, attr="commandHandler"):
 
 def check(ctx, rep):
     prog = ctx.prog
-    rep.rule("R17a", "emitted opcodes have interpreter handlers; attribute maps point at compiler handlers", floor=15)
+    rep.rule("R17a", "emitted opcodes have interpreter handlers; attribute maps point at compiler handlers", floor=12)
     rep.rule("R17b", "TAL opcode values follow define<condition<repeat<content<=replace<attributes<omit-tag; found commands are sorted", floor=2)
     rep.rule("R17c", "end-of-element symbol: stored and looked up at the same tuple position; defined right before END_SCOPE; scope opened for every symbol", floor=6)
     rep.rule("R17d", "scope / program state: pushed field sequence = restored field sequence", floor=2)
@@ -275,7 +275,14 @@ def check(ctx, rep):
         problems.append("popTag not found")
     else:
         found = False
-        for n in ast.walk(pt.node):
+        # popTag itself and the methods of the compiler it hands the work to
+        scope_nodes = [pt.node]
+        for c_ in ast.walk(pt.node):
+            if isinstance(c_, ast.Call) and isinstance(c_.func, ast.Attribute) and dotted(c_.func.value) == "self":
+                g_ = prog.resolve_method(comp, c_.func.attr)
+                if g_ is not None and g_ is not pt and g_.node not in scope_nodes:
+                    scope_nodes.append(g_.node)
+        for n in [x for sn_ in scope_nodes for x in ast.walk(sn_)]:
             body = getattr(n, "body", None)
             if not isinstance(body, list):
                 continue
